@@ -24,6 +24,17 @@ def worker(payload):
     return json.loads(p.stdout.decode())
 
 
+def make_bproj(wd):
+    bproj = os.path.join(wd, 'bproj')
+    os.makedirs(bproj)
+    open(os.path.join(bproj, 'broken.py'), 'w').write('def (:\n')
+    open(os.path.join(bproj, 'badutf.py'), 'wb').write(b'x = "\xff\xfe"\n')
+    open(os.path.join(bproj, 'nul.py'), 'wb').write(b'x = 1\x00\n')
+    open(os.path.join(bproj, 'selfimp.py'), 'w').write('import selfimp\nvalue = selfimp.value\n')
+    open(os.path.join(bproj, 'fine.py'), 'w').write('from broken import *\nfrom badutf import x\nok = 1\n')
+    return bproj
+
+
 def eval_cfg(n, guarded, emit):
     return ('SPECIFICATION Spec\nCONSTANTS\n  N = %d\n  Guarded = %s\nINVARIANT Bounded\n%sPROPERTY Terminates\nCHECK_DEADLOCK FALSE\n' % (
         n, 'TRUE' if guarded else 'FALSE', 'INVARIANT Emit\n' if emit else ''))
@@ -43,7 +54,15 @@ def run(tier, replay=None):
             if 'graph' in c:
                 graphs = [[0, c['graph'], c['split']]]
             else:
-                texts = [{'id': 0, 'source': c['text'], 'filename': c['filename'], 'cursors': [c['pos']] if c.get('pos') and c['pos'] != [0, 0] else 0, 'seed': 0}]
+                fn = c['filename']
+                t0 = {'id': 0, 'source': c['text'], 'filename': fn, 'cursors': [c['pos']] if c.get('pos') and c['pos'] != [0, 0] else 0, 'seed': 0}
+                if '/bproj/' in fn or fn == '<none>':
+                    # the project of unanalysable modules is rebuilt for the replay
+                    bproj = make_bproj(wd)
+                    t0['root'] = bproj
+                    if fn != '<none>':
+                        t0['filename'] = os.path.join(bproj, os.path.basename(fn))
+                texts = [t0]
         else:
             c1 = os.path.join(wd, 'g.cfg')
             open(c1, 'w').write(eval_cfg(3, True, True))
@@ -93,11 +112,26 @@ def run(tier, replay=None):
                     tid += 1
             # hand-written snippets around the constructs the analysis treats specially: every cursor position
             for s in c08_worker.SNIPPETS:
-                texts.append({'id': tid, 'source': s, 'filename': '/nonexistent-verif-root/pkg/snip.py', 'cursors': -1, 'seed': 0})
+                # (texts with hundreds of nested branches take seconds per request: a handful of cursors only)
+                texts.append({'id': tid, 'source': s, 'filename': '/nonexistent-verif-root/pkg/snip.py', 'cursors': -1 if len(s) < 3000 else 5, 'seed': 0})
                 tid += 1
                 for ms in rng.sample(mutseqs[1:8], 3):
                     texts.append({'id': tid, 'source': s, 'filename': '/nonexistent-verif-root/pkg/snip.py', 'cursors': 3, 'seed': rng.randrange(1 << 30), 'muts': ms})
                     tid += 1
+            # a project with modules that cannot be analysed: syntax error, invalid UTF-8, NUL byte, a module importing itself
+            bproj = make_bproj(wd)
+            for btext in ('from broken import *\nimport broken\nbroken.x\nfrom broken import y\ny\ny.z\n',
+                          'from badutf import *\nimport badutf, nul\nbadutf.x\nnul.x\nfrom nul import x\nx.real\n',
+                          'import selfimp\nselfimp.value\nselfimp.value.real\nfrom fine import *\nok\nx\nimport fine\nfine.ok\n'):
+                texts.append({'id': tid, 'source': btext, 'filename': os.path.join(bproj, 'main.py'), 'root': bproj, 'cursors': -1, 'seed': 0})
+                tid += 1
+            texts.append({'id': tid, 'source': 'import selfimp\nselfimp.value;value=1\nvalue\n', 'filename': os.path.join(bproj, 'selfimp.py'), 'root': bproj,
+                          'cursors': -1, 'seed': 0})
+            tid += 1
+            # the filename argument is optional
+            for ntext in ('from . import x\nx\n', 'from .\n', 'from .. import y\nimport os\nos.path\n', 'import os.path\nos.path.join\n'):
+                texts.append({'id': tid, 'source': ntext, 'filename': '<none>', 'root': bproj, 'cursors': -1, 'seed': 0})
+                tid += 1
             for mi, src in enumerate(scopes.gen_modules(seed * 7 + 2, 600 if thorough else 60)):
                 texts.append({'id': tid, 'source': src, 'filename': '/nonexistent-verif-root/s%d.py' % mi, 'cursors': 8, 'seed': rng.randrange(1 << 30)})
                 tid += 1
